@@ -199,11 +199,18 @@ def describe(c):
     return "tag=%s ops=%s" % (c.get("tag"), ",".join(c.get("ops", []))[:160])
 
 
+WRITER_INVS = ["InvReadBack", "InvDurable", "InvFile", "InvFlushed", "InvCutSafe", "InvSyncSafe"]
+
+
 def run_c07(ctx, fa):
+    from . import mcheck
+    # M: every history up to MaxOps of the abstract writer (any blocking policy) and of fastavro's policy, with the bytes on the stream
+    mcheck.model_check(ctx, "MC_Writer", {"MaxOps": 3 if ctx.quick() else 6, "Policy": "any", "Interval": 3}, WRITER_INVS[:4], "any", spec="Spec")
+    mcheck.model_check(ctx, "MC_Writer", {"MaxOps": 3 if ctx.quick() else 6, "Policy": "fastavro", "Interval": 3}, WRITER_INVS[:4], "impl", spec="Spec")
     maxlen = 2 if ctx.quick() else 3
     cases = exhaustive(ctx, fa, maxlen)
     ctx.extra["exhaustive_histories"] = len(cases)
-    cases += randomised(ctx, fa, 150 if ctx.quick() else 1500, 14 if ctx.quick() else 40)
+    cases += randomised(ctx, fa, 100 if ctx.quick() else 1500, 14 if ctx.quick() else 40)
     ctx.extra["random_histories"] = len(cases) - ctx.extra["exhaustive_histories"]
     ctx.rule = ("every history of length <= %d (+ final flush) over {write small/large/zero-byte, write failing early/late, flush, write_block from a null "
                 "and a deflate donor, reopen-for-append with other schema/codec/metadata} for two schema families x codec x sync_interval, plus seeded "
